@@ -216,6 +216,10 @@ fn builtin_insert(args: Vec<Rc<Object>>) -> Result<Rc<Object>, String> {
     match args[0].as_ref() {
         Object::Map(map) => {
             let key = args[1].clone();
+            // the same key kinds as in a map literal and an index assignment
+            if !key.is_a_valid_key() {
+                return Err(format!("not a valid key: {}", key));
+            }
             let val = args[2].clone();
             let old = map.insert(key, val);
             Ok(old)
